@@ -11,7 +11,7 @@ from harness.drivers import gen_dsl as G
 ID = "C22"
 PROP_FILE = "Props/C22.v"
 THEOREMS = ["C22_contingency_wrapper_refines_spec", "C22_finalize_wrapper_refines_spec",
-            "C22_finalize_decorator_refines_spec", "C22_python_try_is_spec",
+            "C22_finalize_decorator_refines_spec", "C22_finalize_decorator_fresh_cleanup_per_call", "C22_python_try_is_spec",
             "C22_final_plan_at_most_once", "C22_final_plan_once_unless_generator_exit",
             "C22_no_cleanup_when_closed_in_plan", "C22_outcome_preserved"]
 COQ_IMPORTS = "From BV Require Import Gen.Coalg Gen.PyGen Gen.Wrappers Gen.Tie."
@@ -22,7 +22,8 @@ MODELLED = ("finalize_wrapper, contingency_wrapper and finalize_decorator (prepr
             "wrapping of lists and single messages, final_plan callables with side effects at call time, "
             "and generator finalisation by the GC are not modelled (lists are covered by the tie only).")
 RULE = ("every wrapper variant (finalize_wrapper with instance/callable/list final plan, pause_for_debug on/off; "
-        "finalize_decorator incl. the non-callable TypeError; contingency_wrapper over all 16 combinations of "
+        "finalize_decorator incl. the non-callable TypeError and the same decorated function invoked 2-3 times in a row "
+        "(fresh wrapped plan and fresh cleanup per call); contingency_wrapper over all 16 combinations of "
         "except/else/final/auto_raise, pause_for_debug on a subset) x a palette of wrapped plans (returning, raising "
         "Exception / control / BaseException-only kinds, ignoring close, yielding in finally) x palettes of except / else / "
         "final plans (empty, yielding, raising, returning a value) x EVERY script over {send None, send 1, throw User0, "
@@ -32,7 +33,8 @@ RULE = ("every wrapper variant (finalize_wrapper with instance/callable/list fin
 
 CORE = [["send", None], ["send", 1], ["throw", "User0"], ["throw", "PlanHalt"], ["close"]]
 WIDE = CORE + [["throw", "RequestAbort"], ["throw", "RequestStop"], ["throw", "KeyboardInterrupt"]]
-ALPHA = {"core": CORE, "wide": WIDE}
+MINI = [["send", None], ["throw", "User0"], ["close"]]
+ALPHA = {"core": CORE, "wide": WIDE, "mini": MINI}
 
 Y = lambda m, x=None: ["yield", x, m]      # noqa: E731
 
@@ -101,6 +103,14 @@ def cases(rng, tier):
             out.append({"w": "decorator", "callable": True, "plans": [p, f], "alpha": "wide" if (i + j) % 3 == 0 else "core",
                         "depth": depth})
     out.append({"w": "decorator", "callable": False, "plans": [INNER[0], FINAL[1]], "alpha": "core", "depth": 2})
+    # the same decorated function invoked 2-3 times in a row (fresh wrapped plan and fresh cleanup per call)
+    for i, p in enumerate(INNER[:6] + [INNER[10]]):
+        for j, f in enumerate(FINAL[1:4] + [FINAL[5]]):
+            for calls in (2, 3):
+                if tier == "quick" and (i + j + calls) % 2:
+                    continue
+                out.append({"w": "decorator", "callable": True, "calls": calls, "plans": [p, f], "alpha": "mini",
+                            "depth": 3 * calls + 1})
     # contingency_wrapper: all option combinations
     k = 0
     for he, hl, hf, auto in itertools.product((False, True), repeat=4):
@@ -152,8 +162,11 @@ def build(case, log):
             fin = _as_list(plans[1])
         return bp.finalize_wrapper(mk(0), fin, pause_for_debug=case["pfd"])
     if w == "decorator":
-        fin = (lambda: mk(1)) if case["callable"] else mk(1)
-        return bp.finalize_decorator(fin)(lambda: mk(0))()
+        calls = case.get("calls", 1)
+        if calls == 1:
+            fin = (lambda: mk(1)) if case["callable"] else mk(1)
+            return bp.finalize_decorator(fin)(lambda: mk(0))()
+        return _repeat(calls, _counted(bp.finalize_decorator, plans, log))
     o = case["opts"]
     return bp.contingency_wrapper(
         mk(0),
@@ -161,6 +174,47 @@ def build(case, log):
         else_plan=(lambda: mk(2)) if o["else"] else None,
         final_plan=(lambda: mk(3)) if o["fin"] else None,
         pause_for_debug=o["pfd"], auto_raise=o["auto"])
+
+
+def _counted(decorator, plans, log):
+    """decorated plan function whose j-th call wraps a fresh plan (gid 2j) with a fresh cleanup (gid 2j+1)"""
+    n = {"plan": 0, "fin": 0}
+
+    def gen_func():
+        j = n["plan"]
+        n["plan"] += 1
+        return G.make_gen(plans[0], 2 * j, log)
+
+    def final_plan():
+        j = n["fin"]
+        n["fin"] += 1
+        return G.make_gen(plans[1], 2 * j + 1, log)
+    return decorator(final_plan)(gen_func)
+
+
+def _repeat(calls, decorated):
+    def outer():
+        r = None
+        for _ in range(calls):
+            g = decorated()
+            G.KEEP.append(g)          # finalisation of an abandoned call by the GC must not land inside a driver step
+            r = yield from g
+        return r
+    return outer()
+
+
+def _ref_decorator(final_plan):
+    """Python's own try/finally as a decorator: a fresh cleanup instance per call"""
+    def dec(gen_func):
+        def inner():
+            fin = final_plan()
+            try:
+                ret = yield from gen_func()
+            finally:
+                yield from fin
+            return ret
+        return inner
+    return dec
 
 
 def _as_list(prog):
@@ -178,6 +232,8 @@ def reference(case, log):
     from bluesky.plan_stubs import pause
     plans = case["plans"]
     mk = lambda h: G.make_gen(plans[h], h, log)      # noqa: E731
+    if case.get("calls", 1) > 1:
+        return _repeat(case["calls"], _counted(_ref_decorator, plans, log))
     if case["w"] in ("finalize", "decorator"):
         o = {"exc": False, "else": False, "fin": True, "auto": True, "pfd": case.get("pfd", False)}
         fin_h = 1
@@ -243,6 +299,8 @@ def prog_term(case):
     if w == "finalize":
         return "(finalize_wrapper_prog %s)" % cb(case["pfd"])
     if w == "decorator":
+        if case.get("calls", 1) > 1:
+            return "(decorated_calls %d)" % case["calls"]
         return "(finalize_decorator_prog %s)" % cb(case["callable"])
     o = case["opts"]
     return "(contingency_prog (mkOpts %s %s %s %s %s))" % tuple(cb(o[k]) for k in ("exc", "else", "fin", "auto", "pfd"))
@@ -259,7 +317,7 @@ def coq_term(case, obs):
     elif case["w"] == "finalize":
         holes = [(False, plans[0]), (case["final_form"] == "callable", plans[1])]
     else:
-        holes = [(False, plans[0]), (True, plans[1])]
+        holes = [(False, plans[0]), (True, plans[1])] * case.get("calls", 1)
     hs = "[" + "; ".join("(%s, %s)" % (cb(f), G.to_coq(p)) for f, p in holes) + "]"
     mute = "[1]" if case.get("final_form") == "list" else "[]"
     items = []
@@ -296,12 +354,21 @@ def oracle(case, obs):
     fin_h = 3 if case["w"] == "contingency" else 1
     has_fin = case["opts"]["fin"] if case["w"] == "contingency" else True
     listy = case.get("final_form") == "list"
+    ncalls = case.get("calls", 1)
     plans_ge = any(_raises_ge(p) for p in case["plans"])
     for s, t, l, tr, lr in obs["runs"]:
         flat = [e for sl in l for e in sl]
-        starts = [e for e in flat if e[0] == fin_h and e[1] == "start"]
-        if len(starts) > 1:
-            return "script %s: the final plan was started %d times" % (s, len(starts))
+        for h in range(1, 2 * ncalls, 2) if ncalls > 1 else [fin_h]:
+            starts = [e for e in flat if e[0] == h and e[1] == "start"]
+            if len(starts) > 1:
+                return "script %s: the final plan (plan %d) was started %d times" % (s, h, len(starts))
+        if ncalls > 1:
+            # every call that ended by return / a plain exception ran its own cleanup: compared with the
+            # reference below; on scripts with close / GeneratorExit only the at-most-once clause applies
+            if not _ge_script(s) and not plans_ge and (t != tr or l != lr):
+                return "script %s (%d calls): decorated plan gives %s / %s, Python's try/finally per call gives %s / %s" % (
+                    s, ncalls, t, l, tr, lr)
+            continue
         if not _ge_script(s) and not plans_ge and not listy:
             if t != tr or l != lr:
                 return "script %s: wrapper gives %s / %s, Python's try statement gives %s / %s" % (s, t, l, tr, lr)
@@ -325,6 +392,8 @@ def finding(case, obs):
 
 def nontrivial(case, obs):
     fin_h = 3 if case["w"] == "contingency" else 1
+    if case.get("calls", 1) > 1:
+        return any(e[0] == 3 for r in obs["runs"] for sl in r[2] for e in sl)      # the second call's cleanup ran
     return any(len(r[1]) >= 3 for r in obs["runs"]) and any(e[0] == fin_h for r in obs["runs"] for sl in r[2] for e in sl)
 
 
@@ -335,4 +404,4 @@ def describe(case):
                                                                         " rand" if case.get("rand") else "")
     if case["w"] == "finalize":
         return "finalize %s pfd=%d%s" % (case["final_form"], case["pfd"], " rand" if case.get("rand") else "")
-    return "decorator callable=%d%s" % (case["callable"], " rand" if case.get("rand") else "")
+    return "decorator callable=%d calls=%d%s" % (case["callable"], case.get("calls", 1), " rand" if case.get("rand") else "")
